@@ -47,6 +47,7 @@ def spec (op impl : String) : String :=
     | none => "nil"
   | ["fnorm", a, _, b] => "ok " ++ hexOf (toBE32 ((ofBE (h b) % P + (P - ofBE (h a) % P)) % P))
   | ["fmul", a, b, k] => "ok " ++ hexOf (toBE32 (ofBE (h a) % P * (ofBE (h b) % P) % P * k.toNat! % P))
+  | ["fsqr", a, k] => "ok " ++ hexOf (toBE32 ((ofBE (h a) % P * k.toNat! % P) * (ofBE (h a) % P * k.toNat! % P) % P))
   | ["finv", a] => "ok " ++ hexOf (toBE32 (invMod (ofBE (h a) % P) P))
   | ["ptadd", p1, p2] => match parsePub (h p1), parsePub (h p2) with
     | some A, some B => (match add A B with | .inf => "inf" | q => "ok " ++ hexOf (compress q))
